@@ -376,7 +376,9 @@ impl Variant {
         match self {
             Self::VSingle(f) => Ok(f.round().fit_to_type()),
             Self::VDouble(d) => Ok(d.round().fit_to_type()),
-            Self::VInteger(_) | Self::VLong(_) => Ok(self),
+            Self::VInteger(_) => Ok(self),
+            // a LONG variable might hold a value that fits in an INTEGER
+            Self::VLong(l) => Ok(l.fit_to_type()),
             _ => Err(VariantError::TypeMismatch),
         }
     }
